@@ -658,7 +658,8 @@ pub fn drive_main<P: Property>(p: &P, args: &Args) -> i32 {
                     if f.status == "known" && (o.sig == f.signature) {
                         known_lines.push(format!("KNOWN-FINDING: property={id} {}", f.what));
                         *stats.known_hits.entry(o.sig.clone()).or_insert(0) += 1;
-                    } else if f.status == "known" && known_sigs.contains_key(&o.sig) {
+                    } else if known_sigs.contains_key(&o.sig) && o.sig != f.signature {
+                        // the pinned input (of a known or fixed entry) runs into another listed finding
                         *stats.known_hits.entry(o.sig.clone()).or_insert(0) += 1;
                     } else {
                         // a fixed finding came back, or a pinned replay now fails differently
